@@ -602,11 +602,61 @@ func checkC16(R *Run) {
 			}}
 			F.Back(c.Args[1])
 			good := modified == "" && (src == "hotline.Account.Access" || src == "request field 110")
+			// the bitmap pushed to a session is that session's (or the edited account's), not the requester's own
+			if good && len(fn.Params) > 0 && typeName(derefType(fn.Params[0].Type())) == "hotline.ClientConn" {
+				ownsSrc := false
+				(&Flow{P: P, Visit: func(x ssa.Value) bool {
+					if fa, ok := x.(*ssa.FieldAddr); ok {
+						if f, _ := fieldOf(fa); f == "hotline.ClientConn.Account" && fa.X == ssa.Value(fn.Params[0]) {
+							ownsSrc = true
+						}
+					}
+					return true
+				}}).Back(c.Args[1])
+				if ownsSrc {
+					if v, ok := ci.(ssa.Value); ok && v.Referrers() != nil {
+						for _, r := range *v.Referrers() {
+							_ = r
+						}
+					}
+					// find the NewTransaction this field goes into and its recipient
+					for _, cj := range callsIn(fn) {
+						cc2 := cj.Common()
+						if calleeName(cc2) != "hotline.NewTransaction" || len(cc2.Args) < 2 {
+							continue
+						}
+						uses := false
+						for _, a := range callArgsFlat(cc2) {
+							if a == ci.(ssa.Value) {
+								uses = true
+							}
+						}
+						if !uses {
+							continue
+						}
+						recOwn := false
+						(&Flow{P: P, Visit: func(x ssa.Value) bool {
+							if fa, ok := x.(*ssa.FieldAddr); ok {
+								if f, _ := fieldOf(fa); f == "hotline.ClientConn.ID" && fa.X == ssa.Value(fn.Params[0]) {
+									recOwn = true
+								}
+							}
+							return true
+						}}).Back(cc2.Args[1])
+						if !recOwn {
+							good = false
+							src = "the REQUESTER's own account, sent to another session"
+						}
+					}
+				}
+			}
 			R.check(good, "wire-raw", fmt.Sprintf("%s: NewField(FieldUserAccess) #%d", fname(fn), nCreateIn(fn, ci)), P.ipos(ci),
 				"bytes come unmodified from "+src, "the access bitmap put on the wire does not come unmodified from an account's Access or the request's access field (source: "+src+" "+modified+")")
 		}
 	}
 	R.floor("wire-raw", 4)
+	R.rule("authorize-sound", "(shared with C05) Authorize(i) is exactly Account.Access.IsSet(i) of the connection's current account: the meaning of bit i at decision time is the one in memory")
+	R.ruleAuthorizeSound()
 
 	// ---- wire-in-raw: the incoming direction — bytes are laid into an AccessBitmap from offset 0 to offset 0
 	R.rule("wire-in-raw", "every copy into an AccessBitmap (builtin copy with the bitmap's bytes as destination) starts at byte 0 of the bitmap and at byte 0 of its source: privilege k of the wire field stays privilege k in memory whatever the field's length")
